@@ -220,11 +220,11 @@ func runCache(o *Out, rng *RNG, tier string, prop string, replay string) {
 		n = 20000
 	}
 	only := replayIndex(replay)
-	for i := 0; i < n; i++ {
-		r := rng.Fork()
-		if only >= 0 && i != only {
-			continue
-		}
+	// runCase: one history. plan == nil: random Commits and faults as drawn from r. plan != nil (fault
+	// sweep): a removal of a remote path followed by writes below it and elsewhere, random operations,
+	// then ONE Commit with the remote failing at its plan.faultAt-th mutating call and a retry; the
+	// caller repeats the same history (same seed) for every fault position. Returns whether the fault fired.
+	runCase := func(i int, r *RNG, plan *cachePlan) (fired bool) {
 		gen.Reset()
 		remoteMem, ref := genRemote(r, gen)
 		initWalk, _, _ := walkFs(remoteMem)
@@ -233,6 +233,11 @@ func runCache(o *Out, rng *RNG, tier string, prop string, replay string) {
 		cache, err := fscache.NewMemCache(remote)
 		must(err)
 		ln := 1 + r.Intn(25)
+		var scripted []FsOp
+		if plan != nil {
+			ln = 4 + r.Intn(8)
+			scripted = sweepScript(r, gen)
+		}
 		var steps []cacheStep
 		committed := ref.Clone() // what the remote must look like (last successful Commit)
 		remoteDirty := false     // a faulty Commit left the remote in an intermediate state
@@ -302,6 +307,9 @@ func runCache(o *Out, rng *RNG, tier string, prop string, replay string) {
 			steps = append(steps, st)
 		}
 		nextCommit := 3 + r.Intn(12)
+		if plan != nil {
+			nextCommit = -1
+		}
 		for j := 0; j < ln && fail == ""; j++ {
 			if j == nextCommit {
 				fa := 0
@@ -316,6 +324,9 @@ func runCache(o *Out, rng *RNG, tier string, prop string, replay string) {
 				continue
 			}
 			op := gen.Op(r)
+			if j < len(scripted) {
+				op = scripted[j]
+			}
 			var target filesystem.Filespace = cache
 			viewBaseComps := []string{}
 			if prop == "C07" && r.Chance(30) && !isMutating(op.Kind) {
@@ -367,6 +378,12 @@ func runCache(o *Out, rng *RNG, tier string, prop string, replay string) {
 		if fail == "" && (len(steps) == 0 || steps[len(steps)-1].Kind == "op") {
 			if len(steps) > 0 && steps[len(steps)-1].Out.Kind == "err" && (steps[len(steps)-1].Op.Kind == "Copy" || steps[len(steps)-1].Op.Kind == "CopyDir") {
 				// partial directory copy: no final commit comparison
+			} else if plan != nil {
+				doCommit(plan.faultAt)
+				fired = len(steps) > 0 && steps[len(steps)-1].Kind == "commitfault"
+				if fired {
+					doCommit(0) // the retry must converge
+				}
 			} else {
 				doCommit(0)
 				if r.Chance(30) {
@@ -410,9 +427,79 @@ func runCache(o *Out, rng *RNG, tier string, prop string, replay string) {
 				keyb.WriteString(s.Kind + ";")
 			}
 		}
+		if plan != nil {
+			fmt.Fprintf(&keyb, "fault@%d", plan.faultAt)
+			o.Stat("sweep_cases")
+		}
 		o.AddCase(fmt.Sprintf("CCache %s %s", coqWalk(initWalk), coqList(items)), desc, keyb.String(), muts > 0 && commits > 0)
+		return fired
+	}
+	for i := 0; i < n; i++ {
+		r := rng.Fork()
+		if only >= 0 && i != only {
+			continue
+		}
+		runCase(i, r, nil)
+	}
+	// fault sweep (C06: "every position of an injected remote failure during Commit")
+	if prop == "C06" {
+		nSweep := 30
+		if tier == "thorough" {
+			nSweep = 600
+		}
+		for si := 0; si < nSweep; si++ {
+			seed := rng.Next()
+			if only >= 0 { // replay of one sweep case: index = n + si*100 + k
+				if only >= n && (only-n)/100 == si {
+					runCase(only, &RNG{s: seed}, &cachePlan{faultAt: (only - n) % 100})
+				}
+				continue
+			}
+			for k := 1; k <= 60; k++ {
+				if !runCase(n+si*100+k, &RNG{s: seed}, &cachePlan{faultAt: k}) {
+					break
+				}
+			}
+		}
 	}
 	_ = io.EOF
+}
+
+type cachePlan struct{ faultAt int }
+
+// sweepScript: remove a path that exists on the remote, then write below it and elsewhere - the shape in
+// which a Commit has both removals and sends to do, so that every fault position separates them differently.
+func sweepScript(r *RNG, gen *FsGen) []FsOp {
+	if len(gen.known) == 0 {
+		return nil
+	}
+	victim := gen.known[r.Intn(len(gen.known))]
+	if len(victim) > 1 && r.Chance(60) {
+		victim = victim[:1+r.Intn(len(victim)-1)]
+	}
+	vp := strings.Join(victim, "/")
+	mk := func(kind, p string, data []byte) FsOp {
+		op := FsOp{Kind: kind, P: p, Data: data}
+		op.fillJSON()
+		return op
+	}
+	names := gen.Names
+	below := vp + "/" + names[r.Intn(len(names))]
+	if r.Chance(40) {
+		below += "/" + names[r.Intn(len(names))]
+	}
+	other := names[r.Intn(len(names))]
+	if r.Chance(50) {
+		other += "/" + names[r.Intn(len(names))]
+	}
+	ops := []FsOp{mk("RemoveAll", vp, nil), mk("WriteFile", below, []byte("below-removed")), mk("WriteFile", other, []byte("elsewhere"))}
+	if r.Chance(50) {
+		ops = append(ops, mk("MkdirAll", vp+"/"+names[r.Intn(len(names))]+"/"+names[r.Intn(len(names))], nil))
+	}
+	if r.Chance(30) {
+		ops[0], ops[2] = ops[2], ops[0] // the unrelated write first
+	}
+	return ops
 }
 
 func walkDesc(w []WalkEnt) []map[string]interface{} {
